@@ -21,6 +21,10 @@ entry points and handles (all optional, see harness/src/mw_timelimiter.rs): head
         `probe source [timeout=<t>] path=<[cb]*>` (the configured timeout source constructed stand-alone, cloned ('c') / clone_box'ed ('b')
         along the path, asked for the timeout of a request: `probe source <ms|max>`).  A result text may carry `!accessors:…` (is_timeout /
         into_inner / ResilienceError::from contradict the variant) or `!listeners:…` (the counting listeners did not fire once per result).
+knob:   `manual knob v=<ms|max>` / `manual knob v=-` — mutable state the harness's timeout function reads besides the request: it answers the
+        request's own `timeout=`, else the knob's CURRENT value, else the default.  `call()` asks the source, so the timeout of a call is the
+        answer at `arrive` (`_script`), whatever the knob is turned to before the (late, out-of-order) first poll of the response future
+        (theorem deadline_fixed_at_call); a fixed source never reads it.  `probe source` reads it too.  Meta line `#knob <t> <v>`.
 wake-ups: `probe woken c=<c>` — has the waker of caller c's call future fired since that future was last polled?  Logged as `probe woken <c>`,
         the answer travels as the observed choice `@woken=<0|1>` on the op line (the model checks the obligation: once min(done, deadline)
         has been reached the waker of a pending call must have fired; it may fire spuriously) and as the meta line `#woken <c> <t> <0|1>`
@@ -385,7 +389,7 @@ def _decorate(rng, header, ops):
             else:
                 at = rng.choice(pos) if pos and rng.random() < 0.7 else rng.randint(0, len(out))
             out.insert(at, "probe woken c=%s" % c)
-    return _construction_context({"header": header, "ops": out})
+    return _knob(_construction_context({"header": header, "ops": out}))
 
 
 BUILT = ["here", "other-idle", "other-dropped"]
@@ -410,6 +414,70 @@ def _construction_context(case):
     return {"header": header, "ops": out}
 
 
+def _knob(case):
+    """mutable state read by the timeout function (`manual knob v=<t>` / `v=-`): the harness's `timeout_fn` answers the request's own
+    `timeout=`, else the knob's current value, else its default.  `call()` asks the source, so what counts is the knob at `arrive` —
+    the knob is turned between a call and its (late) first poll, between calls that are first polled in another order than they were
+    made, and at random.  Some arrivals lose their own `timeout=` so that they read the knob.  With a fixed source (control) the knob
+    is read by nobody.  Drawn from a generator of its own, seeded by the finished case: 70 % of the cases are the ones they were."""
+    import hashlib
+    rng = random.Random(int(hashlib.sha1(("knob|" + case["header"] + "|" + "|".join(case["ops"])).encode()).hexdigest()[:12], 16))
+    T, cancel, dyn = _cfg(case)
+    if rng.random() >= (0.40 if dyn else 0.08):
+        return case
+    out = list(case["ops"])
+    lats = []
+    for i, o in enumerate(out):
+        w = o.split()
+        if w[:1] == ["arrive"]:
+            if rng.random() < 0.6:
+                out[i] = " ".join(x for x in w if not x.startswith("timeout="))
+            first = kvs(o).get("inner", "0:ok").split(",")[0].partition(":")[0]
+            if first.isdigit():
+                lats.append(int(first))
+
+    def value():
+        q = rng.random()
+        if q < 0.08:
+            return "-"
+        if q < 0.14:
+            return "max"
+        if q < 0.18:
+            return str(rng.choice(HUGE))
+        near = [x + d for x in lats for d in (-1, 0, 1, 3) if x + d >= 0]
+        return str(rng.choice(near if (near and rng.random() < 0.6) else [0, 1, 2, 3, 5, 8, 10, 15, 25, 40, rng.randint(0, 60)]))
+
+    res = []
+    unpolled = []
+    if rng.random() < 0.6:
+        res.append("manual knob v=%s" % value())
+    for i, o in enumerate(out):
+        w = o.split()
+        if w[:1] == ["arrive"] and rng.random() < 0.35:
+            res.append("manual knob v=%s" % value())
+        res.append(o)
+        if w[:1] == ["arrive"] and len(w) > 1:
+            nxt = out[i + 1].split() if i + 1 < len(out) else []
+            if nxt[:2] != ["poll", w[1]]:
+                unpolled.append(w[1])
+                # made, not polled yet: the knob is turned before the first poll
+                if rng.random() < 0.6:
+                    res.append("manual knob v=%s" % value())
+        elif rng.random() < 0.06:
+            res.append("manual knob v=%s" % value())
+    # calls first polled in another order than they were made: the first polls of the not-yet-polled calls, latest first
+    if len(unpolled) >= 2 and rng.random() < 0.5:
+        ix = [i for i, o in enumerate(res) if o.split()[:1] == ["arrive"] and o.split()[1] in unpolled]
+        at = ix[-1] + 1
+        while at < len(res) and res[at].startswith("manual knob"):
+            at += 1
+        order = list(reversed(unpolled))
+        if rng.random() < 0.4:
+            rng.shuffle(order)
+        res[at:at] = ["poll %s" % c for c in order]
+    return {"header": case["header"], "ops": res}
+
+
 # ----------------------------------------------------------------------------- reading a case
 
 def _cfg(case):
@@ -427,6 +495,7 @@ def _script(case):
     now = 0
     seen = set()
     gone = False
+    knob = None
     for o in case["ops"]:
         w = o.split()
         if not w:
@@ -435,12 +504,15 @@ def _script(case):
             now += int(w[1])
         if w[:2] == ["manual", "dropsvc"]:
             gone = True
+        if w[:2] == ["manual", "knob"]:
+            knob = tmo_parse(kvs(o).get("v", "-"))
         if w[0] == "arrive" and len(w) > 1 and w[1] not in seen:
             seen.add(w[1])
             if gone:
                 continue       # every handle has been dropped: no request can be made any more
             kv = kvs(o)
-            t_eff = tmo_parse(kv["timeout"], T) if (dyn and "timeout" in kv) else T
+            # the timeout function is asked by `call()`: the request's own timeout, else the knob AS IT IS NOW, else the default
+            t_eff = (tmo_parse(kv["timeout"], T) if "timeout" in kv else knob if knob is not None else T) if dyn else T
             first = kv.get("inner", "0:ok").split(",")[0]
             la, _, out = first.partition(":")
             if not out:
@@ -870,11 +942,14 @@ def mon_source(case, lines, meta):
     (the default without one)"""
     v = View(case, lines, meta)
     want = []
+    knob = None
     for o in case["ops"]:
         w = o.split()
+        if w[:2] == ["manual", "knob"]:
+            knob = tmo_parse(kvs(o).get("v", "-"))
         if w[:2] == ["probe", "source"]:
             kv = kvs(o)
-            own = tmo_parse(kv["timeout"]) if "timeout" in kv else None
+            own = tmo_parse(kv["timeout"]) if "timeout" in kv else knob
             want.append((o, own if (v.dyn and own is not None) else v.T))
     got = [p for p in v.probes if p[1][:1] == ["source"]]
     for i, (o, t) in enumerate(want):
@@ -982,10 +1057,62 @@ def canon(lines):
 
 # ----------------------------------------------------------------------------- coverage
 
+def _knob_tags(case, dyn, T):
+    """what the op sequence does with the knob (op level: a `settle` first-polls every call not polled yet, in id order)"""
+    tags = []
+    knob = None
+    seen, order, at_arrive, waiting = set(), [], {}, []
+    gone = False
+
+    def first_poll(c):
+        if c not in waiting:
+            return
+        waiting.remove(c)
+        if any(order.index(x) < order.index(c) for x in waiting):
+            tags.append("first-polls-out-of-order")
+            if dyn and any(at_arrive[x] != at_arrive[c] for x in waiting if order.index(x) < order.index(c)):
+                tags.append("first-polls-out-of-order-timeouts-differ")
+        own, k = at_arrive[c]
+        if dyn and own is None and k != knob:
+            tags.append("knob-turned-before-first-poll")
+
+    for o in case["ops"]:
+        w = o.split()
+        if w[:2] == ["manual", "dropsvc"]:
+            gone = True
+        elif w[:2] == ["manual", "knob"]:
+            knob = tmo_parse(kvs(o).get("v", "-"))
+            tags.append("knob-turned" if dyn else "knob-fixed-source-control")
+            if knob is None:
+                tags.append("knob-unset")
+        elif w[:1] == ["arrive"] and len(w) > 1 and w[1] not in seen:
+            seen.add(w[1])
+            if gone:
+                continue
+            kv = kvs(o)
+            own = tmo_parse(kv["timeout"], T) if "timeout" in kv else None
+            at_arrive[w[1]] = (own, knob)
+            order.append(w[1])
+            waiting.append(w[1])
+            if dyn and own is None and knob is not None:
+                tags.append("knob-read-by-call")
+        elif w[:1] == ["poll"] and len(w) > 1:
+            first_poll(w[1])
+        elif w[:1] == ["drop"] and len(w) > 1 and w[1] in waiting:
+            waiting.remove(w[1])
+        elif w[:1] == ["settle"]:
+            for c in sorted(waiting, key=int):
+                first_poll(c)
+        elif w[:1] == ["dropall"]:
+            del waiting[:]
+    return tags
+
+
 def transitions(case, lines, meta=None):
     T, cancel, dyn = _cfg(case)
     script = _script(case)
     tags = ["mode-cancel" if cancel else "mode-nocancel", "source-per-request" if dyn else "source-fixed"]
+    tags += _knob_tags(case, dyn, T)
     chain = kvs(case["header"]).get("chain")
     if chain is not None:
         _, _, _, ls, lf = parse_chain(chain)
@@ -1288,6 +1415,8 @@ ALL = ["woken-probe-nothing-pending", "woken-at-deadline", "woken-at-done", "wok
        "chain-c0-before-timeout_duration", "chain-default-source", "chain-default-mode", "chain-overridden-setter",
        "lat-never", "lat=timeout-1", "lat=timeout", "lat=timeout+1", "timeout-zero", "timeout-huge",
        "own-timeout-differs-from-default",
+       "knob-turned", "knob-unset", "knob-read-by-call", "knob-turned-before-first-poll", "knob-fixed-source-control",
+       "first-polls-out-of-order", "first-polls-out-of-order-timeouts-differ",
        "inner-dropped-by-caller", "cancel-drop-at-timeout", "detached-done-after-timeout",
        "detached-done-maybe-after-drop", "result-ok", "result-err", "result-timeout", "result-panic",
        "resolved-at-first-poll", "tie-timeout", "tie-inner", "late-poll-intime-inner",
@@ -1345,8 +1474,8 @@ SPECS = {
         "canon": canon,
         "nontrivial": nontrivial,
         "all_transitions": ALL,
-        "model_modules": ["TR.Model.TimeLimiter", "TR.Lemmas.TimeLimiter", "TR.Lemmas.TimeLimiterWake", "TR.Lemmas.TimeLimiterTrace", "TR.Lemmas.TimeLimiterOrder"],
-        "lean_files": ["TR.Model.TimeLimiter", "TR.Lemmas.TimeLimiter", "TR.Lemmas.TimeLimiterWake", "TR.Lemmas.TimeLimiterTrace", "TR.Lemmas.TimeLimiterOrder"],
+        "model_modules": ["TR.Model.TimeLimiter", "TR.Lemmas.TimeLimiter", "TR.Lemmas.TimeLimiterWake", "TR.Lemmas.TimeLimiterTrace", "TR.Lemmas.TimeLimiterOrder", "TR.Lemmas.TimeLimiterKnob"],
+        "lean_files": ["TR.Model.TimeLimiter", "TR.Lemmas.TimeLimiter", "TR.Lemmas.TimeLimiterWake", "TR.Lemmas.TimeLimiterTrace", "TR.Lemmas.TimeLimiterOrder", "TR.Lemmas.TimeLimiterKnob"],
         "sizes": (800, 40000),
         "rule": "seeded random op sequences (arrive/poll/drop/adv/settle/dropall, and in 30% of the cases one `manual dropsvc`: the callers let "
                 "go of the service, right after the calls are made or at a random point) over 1..6 callers (plus up to 6 retries of refused "
@@ -1366,9 +1495,12 @@ SPECS = {
                 "Layer::layer) is constructed while a SECOND current-thread tokio runtime is current, which is then kept idle or dropped, the calls "
                 "being made on the case's own runtime, and in 50% the services built lazily by svc= arrivals each get a context of their own "
                 "(here / other-idle / other-dropped); latencies at timeout-1/timeout/timeout+1/0/random/never, ok/err (few panics), creation "
-                "separated from the first poll, advances biased to done/deadline -1/0/+1 and to jumps over both (late polls); distinct = "
+                "separated from the first poll, in 40% of the per-request cases (8% of the fixed ones, control) a KNOB the timeout function reads for "
+                "requests without a timeout of their own (`manual knob v=<t|max|->`, drawn from a generator of its own seeded by the finished case; "
+                "60% of the arrivals lose their own timeout= there): turned before arrivals, between a call and its late first poll, at random, values "
+                "near the latencies, and the first polls of the not-yet-polled calls made in reverse / shuffled order of the calls, advances biased to done/deadline -1/0/+1 and to jumps over both (late polls); distinct = "
                 "distinct implementation event log; non-trivial = a timeout, a tie, a late poll, a dropped or detached inner call",
-        "level_text": "Theorems TR.Props.C06.{builder_mode_last_wins, builder_source_last_wins, nocancel_chain_never_drops, timeout_source, deadline_from_first_poll, awake_characterisation, resolves_from_wake, resolves_by_deadline, "
+        "level_text": "Theorems TR.Props.C06.{builder_mode_last_wins, builder_source_last_wins, nocancel_chain_never_drops, timeout_source, deadline_fixed_at_call, knob_line_is_no_operation, deadline_from_first_poll, awake_characterisation, resolves_from_wake, resolves_by_deadline, "
                       "pending_before_wake, settled_none_overdue, never_resolves_early, inner_wins_whenever_observed, "
                       "result_if_earlier, intime_result_never_lost, unlimited_resolves_with_inner_result, timeout_if_later, cancel_drops_at_deadline, "
                       "nocancel_runs_to_completion, nocancel_timeout_leaves_task, readiness_propagates, refusals_change_no_call, arrival_meets_readiness, "
@@ -1378,7 +1510,7 @@ SPECS = {
                       "pending_call_never_overdue, log_never_resolves_early, log_inner_result_is_the_inner_outcome, log_timeout_only_if_unfinished, "
                       "log_cancel_drops_at_deadline, log_nocancel_runs_to_completion, first_poll_nocancel_spawns_only, first_poll_cancel, "
                       "panicking_inner_call}: for every configuration (any fixed or "
-                      "per-request timeout, both modes), every operation sequence and every inner script, a caller polled at or after "
+                      "per-request timeout — also a timeout function that reads a knob turned at run time: the timeout of a call is what the source answers when call() is made and no later operation, turn of the knob or order of first polls changes it —, both modes), every operation sequence and every inner script, a caller polled at or after "
                       "min(done, deadline) resolves, with the inner result whenever the inner call has finished (in both modes, also "
                       "when polled late) and with the timeout error when only the deadline has passed; a call that finished before its "
                       "deadline is never reported as timed out; a call whose timeout is Duration::MAX has no deadline: it is never due, stays "
